@@ -290,12 +290,30 @@ def split_point(rng, b):
 
 def run_stream(ctx, corr):
     t0 = time.time()
-    A = _tr.analyse(ctx.repo)
+    try:
+        A = _tr.analyse(ctx.repo)
+    except TieBroken as e:
+        A = None
+        ctx.log("DataParser stream: the translator does not recognise the source (" + str(e)[:200] + "); probes are skipped, "
+                "archived inputs and their mutations are still run")
     d = ctx.build_gama(sanitize=True)
     objs = sorted(_glob.glob(str(d / "CMakeFiles" / "libgama.dir" / "**" / "*.o"), recursive=True))
     exe = ctx.build_cpp("c11_dataparser", [ctx.verif / "harness" / "c11_dataparser.cpp"], includes=[ctx.verif / "harness"],
                         libs=objs + ["-lexpat"])
     rng = ctx.rng
+    if A is None:
+        docs = []
+        for f in sorted((ctx.verif / "corpus" / "C11").glob("g3-*.xml")):
+            docs.append(("corpus " + f.name, f.read_bytes(), -1, None))
+        for f in sorted(_glob.glob(str(ctx.repo / "tests" / "gama-g3" / "input" / "*.xml"))):
+            b = Path(f).read_bytes()
+            tagnames = sorted({m.group(1).decode() for m in OPEN.finditer(b)})
+            docs.append(("archived " + os.path.basename(f), b, -1, "accept"))
+            for _ in range(ctx.size(40, 400)):
+                m, what = mutate(rng, b, tagnames)
+                docs.append((f"{os.path.basename(f)}: {what}", m, -1, None))
+        run_docs(ctx, corr, exe, docs, "dp_events")
+        return
     reached, names = explore_cached(ctx, corr, exe, A)
     nstates = len(A["states"])
     corr.stats["dp_states"] = nstates
